@@ -2,6 +2,7 @@
 import random
 from .. import gen, diff
 from ..real import Real
+from ..terms import is_bound
 from ..terms import (V, A, C, I, L, NIL, rterm, term_vars, is_ground, canon, resolve, snap_real, snap_real_raw,
                      build_real, rprogram)
 from ..refA import unify as ref_unify
@@ -26,7 +27,7 @@ RULE_ADDED = (' Added after the rounds of independently written changes (DESIGN.
               "systems of up to 12 equations and lists of up to 33 elements (answers above 3000 nodes are discarded and counted); assert / findall / once goals between two bindings; answers built incrementally by append / dup / reverse through up to 150 nested bindings; 'no bound Variable inside a get_value result' as an invariant; findall templates bound after the findall.")
 RULE = RULE + RULE_ADDED
 
-CONST = [A('a'), A('b'), I(1), I(7), NIL]
+CONST = [A('a'), A('b'), I(1), I(7), NIL, I(0)]      # (0: a value that is falsy in Python)
 
 
 def plan(tier, seed):
@@ -172,7 +173,7 @@ def bound_variable_inside(E, value, cap=5000):
             return False
         o = stack.pop()
         if isinstance(o, E.Variable):
-            if o._is_bound:
+            if is_bound(o):
                 return True
         elif isinstance(o, E.Functor):
             stack.extend(o._args)
@@ -303,7 +304,7 @@ def kept_partial_case(ctx, rng):
 
     def to_term(o, depth=0):
         if isinstance(o, E.Variable):
-            if o._is_bound or id(o) not in name_of:
+            if is_bound(o) or id(o) not in name_of:
                 raise ValueError('unexpected variable')
             return name_of[id(o)]
         if isinstance(o, E.Atom):
